@@ -2,10 +2,10 @@ SPECIFICATION Spec
 CONSTANTS
   MaxIn = 1
   MaxOut = 1
-  Kinds = {"unary", "oneway", "sub", "in", "out", "inout"}
+  Kinds = {"unary", "in", "out", "inout"}
   Outcomes = {"ok", "app", "panic"}
   EarlyEnd = FALSE
-  WithDrop = FALSE
+  WithDrop = TRUE
 INVARIANTS HandlerAfterCall OutcomeIsHandlers StreamPrefix EndAfterAll CanFinish RpcInvariants
 PROPERTIES RefinesRpc
-CONSTRAINT Emit
+CONSTRAINT EmitDrop
